@@ -35,12 +35,22 @@ def _sync_scan(spa):
     return f
 
 
-def record(rig, st, label_of_output, known, sensor_defs, which="async"):
+def record(rig, st, label_of_output, known, sensor_defs, which="async", facade=None, keep=None):
+    """facade: an existing facade whose outputs are scanned AGAIN (the wiring in `st` has changed since it was
+    built); keep: a list that receives the facade object"""
     spa = MockSpa(st)
-    if which == "async":
+    if facade is not None:
+        f = facade
+        if which == "async":
+            f._scan_outputs()
+        else:
+            f.scan_outputs()
+    elif which == "async":
         f = rig.facade(spa)
     else:
         f = _sync_scan(spa)
+    if keep is not None:
+        keep.append(f)
 
     def uds(devs):
         return [{"dev": cps(d.key), "demand": cps(d._user_demand["demand"]) if hasattr(d, "_user_demand") else
@@ -67,6 +77,20 @@ def record(rig, st, label_of_output, known, sensor_defs, which="async"):
     }
 
 
+def apply_wiring(st, outs, na_idx, w):
+    for k in outs:
+        a = st.accessors[k]
+        idx = w.get(k, na_idx[k] if na_idx[k] is not None else 0)
+        if a.bitpos is None:
+            _set_field(st, a, idx)
+        else:
+            if idx > a.bitmask:
+                idx = idx & a.bitmask
+            w_ = int.from_bytes(st.status_block[a.pos:a.pos + a.length], "big")
+            w_ = (w_ & ~(a.bitmask << a.bitpos)) | (idx << a.bitpos)
+            _set_field(st, a, w_)
+
+
 def _demand_for(st, dev):
     for ud in st.user_demands:
         if f"Ud{dev}".upper() == ud.upper():
@@ -80,7 +104,12 @@ def run(ctx):
     r = tlc.model_check("Facade_MC", "Facade_MC.cfg", workers=1, timeout=600, coverage=False)
     ctx.tlc_design("Facade inventory function over all wirings of 3 outputs onto 8 labels", r)
     from geckolib.const import GeckoConstants as C
-    known = [{"key": cps(k), "cls": v[3]} for k, v in C.DEVICES.items()]
+    # the device classes the property speaks of (pumps P1..P5 and Waterfall, the blower, the lights), as of the
+    # audited commit; keys the library's table has gained since are taken from the live table, keys it has LOST or
+    # re-classified are a finding (a wired pump 5 has to be a pump)
+    pinned = {"P1": "PUMP", "P2": "PUMP", "P3": "PUMP", "P4": "PUMP", "P5": "PUMP", "BL": "BLOWER", "Waterfall": "PUMP", "LI": "LIGHT"}
+    known = [{"key": cps(k), "cls": c_} for k, c_ in pinned.items()] + \
+            [{"key": cps(k), "cls": v[3]} for k, v in C.DEVICES.items() if k not in pinned]
     sensor_defs = [(s[0], s[1]) for s in C.SENSORS] + [(b[0], b[1]) for b in C.BINARY_SENSORS]
     ps = pairs()
     by_plat = {}
@@ -116,6 +145,12 @@ def run(ctx):
                 labs = list(range(len(a.items))) if ctx.quick is False else sorted(set(
                     [0, len(a.items) - 1] + rng.sample(range(len(a.items)), min(4, len(a.items)))))
                 for i in labs:
+                    wirings.append({k: i})
+            # every device the log table knows, wired once through some output that offers a label for it
+            for dev in st.all_devices:
+                cand = [(k, i) for k in outs for i, lab in enumerate(st.accessors[k].items or []) if lab and lab.startswith(dev)]
+                if cand:
+                    k, i = rng.choice(cand)
                     wirings.append({k: i})
             # seeded multi-output assignments (same device on several outputs possible)
             for _ in range(6 if ctx.quick else 40):
@@ -179,26 +214,29 @@ def run(ctx):
                     break
                 st.set_status_block(base)
                 ok = True
-                for k in outs:
-                    a = st.accessors[k]
-                    idx = w.get(k, na_idx[k] if na_idx[k] is not None else 0)
-                    if a.bitpos is None:
-                        _set_field(st, a, idx)
-                    else:
-                        if idx > a.bitmask:
-                            idx = idx & a.bitmask
-                        w_ = int.from_bytes(st.status_block[a.pos:a.pos + a.length], "big")
-                        w_ = (w_ & ~(a.bitmask << a.bitpos)) | (idx << a.bitpos)
-                        _set_field(st, a, w_)
+                apply_wiring(st, outs, na_idx, w)
                 labels = [st.accessors[k].value for k in outs]
                 if wi == 2 and empty_failed is not None and pair_ok:
                     # the pair can be built with an accessory wired, but not with nothing wired
                     broken.append((f"{c['name']}+{l['name']}", {}, empty_failed[0], empty_failed[1]))
                 for which in ("async", "sync"):
                     try:
+                        kept = []
                         with contextlib.redirect_stdout(io.StringIO()):
-                            recs.append(record(rig, st, labels, known, sensor_defs, which))
+                            recs.append(record(rig, st, labels, known, sensor_defs, which, keep=kept))
                         meta.append((f"{c['name']}+{l['name']}", {k: st.accessors[k].value for k in w}))
+                        if wi % 9 == 4 and wi + 1 < len(wirings) and kept:
+                            # the same facade scans its outputs a second time after the wiring has changed
+                            w2 = wirings[wi + 1]
+                            saved = st.status_block
+                            apply_wiring(st, outs, na_idx, w2)
+                            labels2 = [st.accessors[k].value for k in outs]
+                            try:
+                                with contextlib.redirect_stdout(io.StringIO()):
+                                    recs.append(record(rig, st, labels2, known, sensor_defs, which, facade=kept[0]))
+                                meta.append((f"{c['name']}+{l['name']}", {"rescan": {k: st.accessors[k].value for k in w2}}))
+                            finally:
+                                st.set_status_block(saved)
                     except Exception as e:  # noqa
                         if wi == 0:
                             empty_failed = (which, type(e).__name__)
